@@ -143,7 +143,7 @@ func changeNode(r *gen.RNG, p gen.Profile, v any) any {
 		t["zz"] = gen.Scalar(r, p)
 		return t
 	case string:
-		switch r.Intn(4) {
+		switch r.Intn(7) {
 		case 0:
 			if t == "" {
 				return []any{}
@@ -151,6 +151,18 @@ func changeNode(r *gen.RNG, p gen.Profile, v any) any {
 			return t + "x"
 		case 1:
 			return nil
+		case 2:
+			return t + "\n" // differs by a final line break only
+		case 3:
+			if strings.HasSuffix(t, "\n") {
+				return strings.TrimSuffix(t, "\n")
+			}
+			return t + " "
+		case 4:
+			if u := strings.ToUpper(t); u != t {
+				return u
+			}
+			return " " + t
 		default:
 			return gen.Scalar(r, p)
 		}
@@ -160,6 +172,8 @@ func changeNode(r *gen.RNG, p gen.Profile, v any) any {
 			return ref.ToJSON(t) // the number as a string
 		case 1:
 			return t + 1
+		case 2:
+			return math.Nextafter(t, math.Inf(1)) // the neighbouring float64
 		default:
 			return gen.Scalar(r, p)
 		}
